@@ -36,6 +36,23 @@ def tree_hash():
     h.update(open(os.path.join(c.HARNESS_DIR, 'src', 'shape.rs'), 'rb').read())
     return h.hexdigest()[:16]
 
+def repo_hash():
+    """hash of the crate's sources alone"""
+    h = hashlib.sha1()
+    files = [os.path.join(c.REPO, 'Cargo.toml')]
+    for root, _, names in os.walk(os.path.join(c.REPO, 'src')):
+        files += [os.path.join(root, n) for n in names]
+    for f in sorted(files):
+        h.update(f[len(c.REPO):].encode()); h.update(open(f, 'rb').read())
+    return h.hexdigest()[:16]
+
+def changed_tree():
+    """True when the crate's sources differ from the tree this framework was last validated on
+    (explore/baseline.sha, written by tools/gen_explore_seeds.py).  A changed tree gets a longer search
+    and a second set of targets built without an allocator: more search where something is new."""
+    f = os.path.join(SRC, 'baseline.sha')
+    return not os.path.exists(f) or open(f).read().strip() != repo_hash()
+
 def crate_dir():
     """a copy of the explore crate whose path dependency points at the tree under test"""
     tag = c.harness_dir()[1]
@@ -51,13 +68,15 @@ def crate_dir():
         put('fuzz_targets/' + f, open(os.path.join(SRC, 'fuzz_targets', f)).read())
     return d, tag
 
-def build():
+def build(feat='std'):
     d, tag = crate_dir()
-    tdir = os.path.join(c.CACHE, 'explore-target' + tag)
+    tdir = os.path.join(c.CACHE, 'explore-target' + ('' if feat == 'std' else '-' + feat + 'feat') + tag)
     with c.Lock('explore-build' + tag):
-        rc, log = c.sh(['cargo', '+nightly', 'fuzz', 'build', '--fuzz-dir', d, '--target-dir', tdir], cwd=d, timeout=1200)
+        cmd = ['cargo', '+nightly', 'fuzz', 'build', '--fuzz-dir', d, '--target-dir', tdir]
+        if feat != 'std': cmd += ['--no-default-features'] + (['--features', feat] if feat != 'none' else [])
+        rc, log = c.sh(cmd, cwd=d, timeout=1200)
         if rc != 0:
-            raise c.BuildError('cargo fuzz build (exploration targets)', log)
+            raise c.BuildError('cargo fuzz build (exploration targets, %s)' % feat, log)
     return os.path.join(tdir, 'x86_64-unknown-linux-gnu', 'release')
 
 def seed_corpus(target, dst):
@@ -121,9 +140,21 @@ def ensure(tier='quick'):
             d = os.path.join(root, t)
             if not os.path.isdir(d):
                 os.makedirs(d); log.setdefault('seeded', {})[t] = seed_corpus(t, d)
-        budget = BUDGET['quick' if tier == 'quick' else 'thorough']
+        budget = dict(BUDGET['quick' if tier == 'quick' else 'thorough'])
+        changed = changed_tree()
+        log['sources_differ_from_validated_tree'] = changed
+        if changed and tier == 'quick':
+            budget = {t: (secs * 3, forks) for t, (secs, forks) in budget.items()}
         with ThreadPoolExecutor(max_workers=3) as ex:
             list(ex.map(lambda t: run_target(bindir, t, os.path.join(root, t), budget[t][0], budget[t][1], log), TARGETS))
+        if changed:
+            # the same corpora driven by the coverage of the build without an allocator (its own code paths:
+            # nom_noalloc.rs, the heapless conversions)
+            nb = build('none')
+            sub = {}
+            with ThreadPoolExecutor(max_workers=2) as ex:
+                list(ex.map(lambda t: run_target(nb, t, os.path.join(root, t), max(6, budget[t][0] // 3), 7, sub), ('msg', 'hist')))
+            log['no_allocator_build'] = sub
         for t in TARGETS:
             if len(os.listdir(os.path.join(root, t))) > CAP[t]:
                 minimise(bindir, t, os.path.join(root, t))
